@@ -822,6 +822,20 @@ def rule_r10(repo, run, T):
                           "from the generated file" % (key, k, reader, k), repo.module("whelpers").loc(h.node),
                           sample=dict(helper=key, key=k, reader=reader))
     run.floor(R, "helper payload keys", n, 80)
+    # a helper's own text is emitted after the text of the helpers it depends on
+    for mod, q in ((wc, "Wrapc._gather_helper_code"), (wf, "Wrapf._gather_helper_code"), (wp, "Wrapp._gather_helper_code")):
+        fn = mod.func(q)
+        rec = [i for i, st in enumerate(fn.body) if any((pyflow.call_name(c) or "").endswith("._gather_helper_code")
+                                                         for c in ast.walk(st) if isinstance(c, ast.Call))]
+        pay = [i for i, st in enumerate(fn.body) if any(
+            isinstance(c, ast.Call) and isinstance(c.func, ast.Attribute) and c.func.attr in ("append", "extend")
+            for c in ast.walk(st)) or any(isinstance(a, ast.Assign) and isinstance(a.targets[0], ast.Subscript)
+                                          and "done" not in mod.seg(a.targets[0]) for a in ast.walk(st))]
+        pay = [i for i in pay if i not in rec]
+        run.check(R, "%s.%s:dependencies-first" % (mod.name, q), bool(rec) and bool(pay) and max(rec) < min(pay),
+                  "the helper's own includes/types/source are emitted before its dependent helpers were gathered: "
+                  "a type or function is used before its definition", mod.loc(fn),
+                  sample=dict(function=q, recursion_at=rec, first_payload_at=min(pay) if pay else None))
 
 
 def rule_r11(repo, run, T):
@@ -880,6 +894,78 @@ def rule_r11(repo, run, T):
                       "every class must start with an unconditional fileinfo.begin_class() before it is wrapped", wf.loc(lp))
     if nloops != 1:
         raise AnalysisError("C05.R11: loop over classes in wrap_namespace not found")
+    # the same for the Python emitter: attributes set while the functions of a class are wrapped and read when the
+    # class's type object is written must start from their default for every class
+    wp = repo.module("wrapp")
+    cls = wp.cls("Wrapp")
+    meths = {n.name: n for n in cls.body if isinstance(n, ast.FunctionDef)}
+
+    def reach(name, seen):
+        if name in seen or name not in meths:
+            return seen
+        seen.add(name)
+        for c in ast.walk(meths[name]):
+            if isinstance(c, ast.Call):
+                d = pyflow.call_name(c) or ""
+                if d.startswith("self.") and d.count(".") == 1:
+                    reach(d[5:], seen)
+        return seen
+    fw = reach("wrap_functions", set())
+    cw = reach("wrap_class", set()) - fw
+    written = set()
+    for m in fw:
+        for n in ast.walk(meths[m]):
+            if isinstance(n, ast.Assign):
+                for t in n.targets:
+                    if isinstance(t, ast.Attribute) and pyflow.is_name(t.value, "self"):
+                        v = n.value
+                        sticky = (isinstance(v, ast.Constant) and v.value is True) or (
+                            isinstance(v, ast.BoolOp) and isinstance(v.op, ast.Or) and any(
+                                isinstance(x, ast.Attribute) and x.attr == t.attr for x in v.values))
+                        if not sticky:          # `x = True` / `x = x or y` only ever adds a header, never a wrong name
+                            written.add(t.attr)
+    read = set()
+    for m in cw:
+        for n in ast.walk(meths[m]):
+            if isinstance(n, ast.Attribute) and pyflow.is_name(n.value, "self") and isinstance(n.ctx, ast.Load):
+                read.add(n.attr)
+    per_class = sorted(written & read)
+    wcl = meths["wrap_class"]
+    call_idx = [i for i, st in enumerate(wcl.body) if any((pyflow.call_name(c) or "") == "self.wrap_functions"
+                                                           for c in pyflow.calls_in(st))]
+    if not call_idx:
+        raise AnalysisError("C05.R11: Wrapp.wrap_class no longer calls self.wrap_functions")
+    for attr in per_class:
+        resets = [i for i, st in enumerate(wcl.body[:call_idx[0]]) if isinstance(st, ast.Assign) and any(
+            isinstance(t, ast.Attribute) and pyflow.is_name(t.value, "self") and t.attr == attr for t in st.targets)]
+        run.check(R, "wrapp.Wrapp.wrap_class:%s" % attr, bool(resets),
+                  "self.%s is set while the functions of a class are wrapped and read when the class is written, but "
+                  "wrap_class does not reset it before wrapping the functions: a class inherits the value of the "
+                  "previous class (e.g. another class's static tp_init)" % attr, wp.loc(wcl),
+                  sample=dict(attribute=attr))
+    run.floor(R, "per-class attributes of the Python emitter", len(per_class), 1)
+
+
+def rule_r12(repo, run, T):
+    R = run.rule("C05.R12", "a boolean flag kept in a format scope is set on one scope per function (a flag set on "
+                            "the child scope of an argument is invisible to the function-level reader)")
+    n = 0
+    for mn in ("wrapc", "wrapf", "wrapp", "wrapl"):
+        m = repo.module(mn)
+        for q, fn in sorted(m.functions().items()):
+            recv = {}
+            for node in ast.walk(fn):
+                if isinstance(node, ast.Assign) and isinstance(node.value, ast.Constant) and isinstance(node.value.value, bool):
+                    for t in node.targets:
+                        if isinstance(t, ast.Attribute) and isinstance(t.value, ast.Name) and t.value.id.startswith("fmt"):
+                            recv.setdefault(t.attr, {}).setdefault(t.value.id, node)
+            for attr, rs in sorted(recv.items()):
+                n += 1
+                run.check(R, "%s.%s:%s" % (mn, q, attr), len(rs) == 1,
+                          "flag %s is set through %s in the same function: the scopes are parent and child, so one of the "
+                          "writes never reaches the code that tests the flag" % (attr, sorted(rs)),
+                          m.loc(sorted(rs.values(), key=lambda x: x.lineno)[-1]), sample=dict(function=q, flag=attr, scopes=sorted(rs)))
+    run.floor(R, "format-scope flags", n, 5)
 
 
 def run(repo, run, tier):
@@ -902,6 +988,7 @@ def run(repo, run, tier):
     rule_r9(repo, run, T)
     rule_r10(repo, run, T)
     rule_r11(repo, run, T)
+    rule_r12(repo, run, T)
     run.assumptions.extend([
         "field universe is an over-approximation (any attribute store / Scope keyword in the emitter's "
         "modules defines the field): a report means no assignment exists at all",
